@@ -481,6 +481,14 @@ def judge_sensor(rec, mjm, i, got, ref, noise, coarse, gated, struct_ok, constra
         gm = match_rows(rr[:k], gr[:k])
         g = np.concatenate([gm.reshape(-1), gr[k:].reshape(-1)])
         r = np.concatenate([rr[:k].reshape(-1), rr[k:].reshape(-1)])
+  if t == int(S.mjSENS_GEOMFROMTO) and np.any(r != 0) and np.any(g != 0) and np.abs(g - r).max() > allow * sc:
+    # closest points are not unique between parallel faces/edges: equal length and direction is all that is defined
+    vg, vr = g[3:] - g[:3], r[3:] - r[:3]
+    lg, lr = np.linalg.norm(vg), np.linalg.norm(vr)
+    if abs(lg - lr) <= allow * sc and (min(lg, lr) < 1e-6 or np.dot(vg, vr) / (lg * lr) > 1 - 1e-4):
+      rec.count("geomfromto_nonunique_closest_points")
+      rec.inconcl("geomfromto: same distance and direction, different closest points (not unique)")
+      return "incon"
   return judge_el(rec, name, g, r, allow, nz, scale=sc, sig=sig, ctx=ctx)
 
 
@@ -658,7 +666,13 @@ def run_case(case):
       rec.cover("gated_contacts", int(rs[4]))
     # ---- energy
     if energy_on:
-      judge_el(rec, "energy", got_en[w], ref["energy"], A_POS, noise["energy"], sig="energy", ctx=ctx)
+      has_ep = bool(np.any(mjm.sensor_type == int(S.mjSENS_E_POTENTIAL)))
+      has_ek = bool(np.any(mjm.sensor_type == int(S.mjSENS_E_KINETIC)))
+      for k, nm, has in ((0, "potential", has_ep), (1, "kinetic", has_ek)):
+        # classified mechanism: forward._energy_pos/_energy_vel leave the computation to sensor_pos when an energy sensor
+        # exists, and sensor_pos returns early under DisableBit.SENSOR -> Data.energy[k] is never written
+        stale = sensor_off and has and got_en[w][k] == 7.0e7
+        judge_el(rec, "energy_" + nm, [got_en[w][k]], [ref["energy"][k]], A_POS, noise["energy"][k], sig="energy:not-computed-when-sensor-disabled-and-energy-sensor-present" if stale else "energy", ctx=ctx)
       rec.cover("energy_compared", 1)
     else:
       rec.check()
